@@ -146,13 +146,69 @@ example : (run Skeleton.current init
               (step Skeleton.current s (.waiterGetsCtx 0)).isSome) = some true := by
   decide
 
-/-- M2's `callReceive` has two outcomes only — registered, or refused because the table is closed — and
-    the stub treats every `Receive` error as fatal for the link.  That is sound only if `Receive` never
-    fails for a reason that belongs to ONE call (such as that call's context being done already): the
-    only error it returns is `ErrClosed`, under the closed check (checked against the regenerated
-    skeleton).  Otherwise cancelling one call early would end the link for every other call. -/
-theorem C04_receive_fails_only_when_closed :
-    Skeleton.current.bcReceiveErrorsOnlyClosed = true ∧ Skeleton.current.bcReceiveRefusesWhenClosed = true := by decide
+/-- The stub treats every `Receive` error as fatal for the link (`panic(err)` → `recover` → `setErr(err)`).
+    That is sound only if `Receive` never fails for a reason that belongs to ONE call, such as that call's
+    context being done already.  It does not (source facts `bcReceiveErrorsOnlyClosed`,
+    `bcReceiveRefusesWhenClosed`, checked against the regenerated skeleton as part of `cur_live`):
+    while the table is open, `callReceive` of a marshalled call registers the call — whatever the state of
+    its context — and touches nothing of the fatal-error machinery; and whenever `callReceive` does not
+    register the call, the table was closed already (`setErr` has run) and the panic value is `ErrClosed`. -/
+theorem C04_receive_fails_only_when_closed : ∀ s, Reach Skeleton.current s → ∀ c,
+    ((s.calls c).pc = .marshalled → s.bc.closed = false →
+      ∃ s', step Skeleton.current s (.callReceive c) = some s' ∧ (s'.calls c).pc = .registered ∧
+        (s'.bc.table c).isSome = true ∧ s'.bc.closed = false ∧
+        s'.setters = s.setters ∧ s'.fatalLog = s.fatalLog ∧ s'.slot = s.slot ∧ s'.link = s.link) ∧
+    (∀ s', step Skeleton.current s (.callReceive c) = some s' → (s'.calls c).pc ≠ .registered →
+      s.bc.closed = true ∧ (s'.calls c).pc = .panicking eClosed) :=
+  fun _ h c => ⟨fun hp hcl => callReceive_registers _ cur_live h c hp hcl,
+               fun _ hs hf => callReceive_fails_closed _ cur_live h c hs hf⟩
+
+/-- What the fact protects against, as a behaviour of the model: on the current tree with that ONE fact
+    flipped (`Receive` refuses a context that is done already), call 0 is in flight (registered, written,
+    its waiter parked); the context of call 1 is cancelled before call 1 starts; call 1's `Receive` is
+    refused with the context's error, the stub panics with it, recovers, and `setErr` stores it and closes
+    the table.  One expired call has ended a healthy link: the table is closed, the slot holds call 1's
+    context error, no entry was ever created for call 1, call 0's waiter is woken by the close — and call 0
+    returns `closed` although nothing was wrong with the link. -/
+theorem C04_refusing_a_done_context_ends_the_link :
+    (run skRefusesDoneCtx init
+      [.callStart 0 5 2 0, .callReceive 0, .callSpawn 0, .callWrite 0, .waiterRecvCall 0,
+       .ctxCancel 6,
+       .callStart 1 6 2 0, .callReceive 1, .callRecover 1 eCallCtx, .setErrStore 1, .setErrClose 1]).map
+      (fun s => decide (s.bc.closed = true ∧ s.slot = some eCallCtx ∧ s.fatalLog = [eCallCtx] ∧
+                        s.bc.rcvs 1 = .refusedCtx ∧ s.bc.nextGen = 1 ∧
+                        (s.calls 1).outcome = .failed eCallCtx ∧ (s.calls 0).pc = .written ∧
+                        (step skRefusesDoneCtx s (.waiterGetsDone 0)).isSome = true)) = some true ∧
+    (run skRefusesDoneCtx init
+      [.callStart 0 5 2 0, .callReceive 0, .callSpawn 0, .callWrite 0, .waiterRecvCall 0,
+       .ctxCancel 6,
+       .callStart 1 6 2 0, .callReceive 1, .callRecover 1 eCallCtx, .setErrStore 1, .setErrClose 1,
+       .waiterGetsDone 0, .waiterSend 0, .waiterFree 0, .callTakeRes 0 false, .callReturnOk 0]).map
+      (fun s => decide ((s.calls 0).pc = .returned ∧ (s.calls 0).outcome = .ok ⟨none, .closed⟩ ∧
+                        s.crashed = false)) = some true := by
+  constructor <;> decide
+
+/-- The positive counterpart on the current tree: after the very same prefix, `callReceive 1` succeeds
+    although call 1's context is done — the call is registered, its entry exists (born cancelled), the
+    stub has nothing to recover, the link is untouched; call 1 then learns of its context's end the
+    regular way (through its waiter) and returns the context error, with the link still healthy. -/
+theorem C04_done_context_call_registers :
+    (run Skeleton.current init
+      [.callStart 0 5 2 0, .callReceive 0, .callSpawn 0, .callWrite 0, .waiterRecvCall 0,
+       .ctxCancel 6,
+       .callStart 1 6 2 0, .callReceive 1]).map
+      (fun s => decide ((s.calls 1).pc = .registered ∧ s.bc.rcvs 1 = .have 1 1 6 ∧ s.bc.table 1 = some 1 ∧
+                        s.bc.closed = false ∧ s.slot = none ∧ s.fatalLog = [] ∧ s.setters 1 = .absent ∧
+                        (step Skeleton.current s (.callRecover 1 eCallCtx)).isSome = false ∧
+                        (step Skeleton.current s (.waiterGetsDone 0)).isSome = false)) = some true ∧
+    (run Skeleton.current init
+      [.callStart 0 5 2 0, .callReceive 0, .callSpawn 0, .callWrite 0, .waiterRecvCall 0,
+       .ctxCancel 6,
+       .callStart 1 6 2 0, .callReceive 1, .callSpawn 1, .callWrite 1, .waiterRecvCall 1,
+       .waiterGetsCtx 1, .waiterSend 1, .waiterFree 1, .callTakeRes 1 false, .callReturnOk 1]).map
+      (fun s => decide ((s.calls 1).outcome = .ok ⟨none, .ctxErr⟩ ∧ (s.calls 0).pc = .written ∧
+                        s.bc.closed = false ∧ s.slot = none ∧ s.fatalLog = [])) = some true := by
+  constructor <;> decide
 
 /-- The same guarantees hold for a closure invocation made by a handler: it IS a call of M2 (the proxy
     goes through the very stub the theorems above are about) whose context is the one the handler passed
@@ -179,3 +235,5 @@ end Panrpc.Ep
 #print axioms Panrpc.Ep.C04_others_unaffected
 #print axioms Panrpc.Ep.C04_publishers_touch_no_call
 #print axioms Panrpc.Ep.C04_receive_fails_only_when_closed
+#print axioms Panrpc.Ep.C04_refusing_a_done_context_ends_the_link
+#print axioms Panrpc.Ep.C04_done_context_call_registers
